@@ -14,8 +14,7 @@ open CtyModel.Convert
 * `cv.parse <str>`                       → outcome of cty.ParseNumberVal
 * `cv.hash <value>`                      → outcome of Value.Hash
 * `cv.judge <value> <type> <result>`     → `pass` | `fail <clause>*` (property predicates on real outputs)
-* `cv.admits <result> <result'>`         → `1|0`  (refinement of an unknown result admits a concrete result)
-* `cv.regular <in> <out>`                → `1|0`  (the side condition `Convert.regular` of the theorems) -/
+* `cv.admits <result> <result'>`         → `1|0`  (refinement of an unknown result admits a concrete result) -/
 
 def unifyFuel : Nat := 48
 def applyFuel : Nat := 64
@@ -53,9 +52,6 @@ def handleConvert : Handler := fun op args =>
     pure (match judge v t r with
       | [] => "pass"
       | fs => "fail " ++ " ".intercalate fs)
-  | "cv.regular", [a, b] => do
-    let a ← Ty.ofSexp a; let b ← Ty.ofSexp b
-    pure (toString (Sexp.encBool (regular cvEnv a b)))
   | "cv.admits", [r, r'] => do
     let r ← Value.ofSexp r; let r' ← Value.ofSexp r'
     pure (toString (Sexp.encBool (admitsResult r r')))
